@@ -1775,7 +1775,9 @@ class UnitQuaternion(Quaternion):
 
         :seealso: :func:`~spatialmath.base.quaternions.slerp`
         """
-        # TODO vectorize
+        if not base.isscalar(s):
+            # a sequence of s values gives the corresponding sequence of quaternions
+            return UnitQuaternion([self.interp(x, dest=dest, shortest=shortest).A for x in base.getvector(s)])
 
         if dest is not None:
             # 2 quaternion form
